@@ -45,6 +45,29 @@ type TextAttr struct {
 	LetterSpacing string   `xml:"letter-spacing,attr,omitempty"`
 }
 
+// withOwn returns a with every attribute that own sets explicitly kept:
+// an element that is flushed on its own (see GraphicsPlatform.Push) takes
+// the pen style but must not lose the attributes it was created with, such
+// as the colour of the `clear` background or of a `gridn` grid.
+func (a Attr) withOwn(own Attr) Attr {
+	if own.Fill != "" {
+		a.Fill = own.Fill
+	}
+	if own.Stroke != "" {
+		a.Stroke = own.Stroke
+	}
+	if own.StrokeWidth != nil {
+		a.StrokeWidth = own.StrokeWidth
+	}
+	if own.StrokeLinecap != "" {
+		a.StrokeLinecap = own.StrokeLinecap
+	}
+	if own.StrokeDashArray != "" {
+		a.StrokeDashArray = own.StrokeDashArray
+	}
+	return a
+}
+
 type (
 	attrSetter     interface{ setAttr(a Attr) }
 	textAttrSetter interface{ setTextAttr(ta TextAttr) }
@@ -58,7 +81,7 @@ type Group struct {
 	Elements []any `xml:""` // circle, rect, ...
 }
 
-func (g *Group) setAttr(a Attr)          { g.Attr = a }
+func (g *Group) setAttr(a Attr)          { g.Attr = a.withOwn(g.Attr) }
 func (g *Group) setTextAttr(ta TextAttr) { g.TextAttr = ta }
 
 // Line represents an SVG line element <line>.
@@ -94,7 +117,7 @@ type Rect struct {
 	Height string  `xml:"height,attr"`
 }
 
-func (r *Rect) setAttr(a Attr) { r.Attr = a }
+func (r *Rect) setAttr(a Attr) { r.Attr = a.withOwn(r.Attr) }
 
 // Polyline represents an SVG polyline element <polyline>.
 type Polyline struct {
